@@ -61,12 +61,11 @@ type Program struct {
 	// StrictCond selects Go's condition-variable semantics in the schedule explorer.
 	StrictCond bool
 
-	reqOnce sync.Once
-	req     map[string]bool
+	req map[string]bool // last path component of every Require of the file (set by NewProgram)
 }
 
 func NewProgram(f *File) *Program {
-	p := &Program{File: f, Index: map[string][]int{}}
+	p := &Program{File: f, Index: map[string][]int{}, req: fileRequires(f)}
 	for i := range f.Items {
 		it := &f.Items[i]
 		if it.Kind == "def" || it.Kind == "notation" {
@@ -411,18 +410,20 @@ func libraryModules() map[string]bool {
 
 // requires lists the last path component of every `From ... Require` of the file.
 func (p *Program) requires() map[string]bool {
-	p.reqOnce.Do(func() {
-		p.req = map[string]bool{}
-		if p.File != nil {
-			for _, it := range p.File.Items {
-				if it.Kind == "require" {
-					parts := strings.Split(it.Path, ".")
-					p.req[parts[len(parts)-1]] = true
-				}
+	return p.req
+}
+
+func fileRequires(f *File) map[string]bool {
+	req := map[string]bool{}
+	if f != nil {
+		for _, it := range f.Items {
+			if it.Kind == "require" {
+				parts := strings.Split(it.Path, ".")
+				req[parts[len(parts)-1]] = true
 			}
 		}
-	})
-	return p.req
+	}
+	return req
 }
 
 func (in *Interp) evalType(th *Thread, e Expr, env *Env, scope int) *Type {
